@@ -48,9 +48,10 @@ MANIFEST = dict(
          "evaluating the identities and an independent count with a Python oracle",
     design_ref="DESIGN.md §5 C12",
     note="trusted: Lean kernel, axioms ⊆ {propext, Classical.choice, Quot.sound}; hand-written model; htslib/pysam parsing; "
-         "MixedPhasingError / PloidyError (consistency over all samples) are outside the model, inputs are of one ploidy and one "
-         "phasing kind per chromosome; medians, averages and fractions are only compared with the model (recomputed from its "
-         "sorted lists); the float comparison in n50 is modelled over the integers",
+         "MixedPhasingError / PloidyError / malformed HP over all samples are modelled by Model/C12File.lean on top of C09's "
+         "whole-file reader and compared through c12.file on multi-sample files (the main stream has one ploidy and one phasing "
+         "kind per chromosome); medians, averages and fractions are not modelled in Lean (recomputed from the model's sorted "
+         "lists and, independently, from the file); the float comparison in n50 is modelled over the integers",
     technique="Lean 4 model + counting/partition lemmas + invariant proof of the splitting loop + CLI differential run with oracle",
 )
 ASSUMPTIONS = [
